@@ -910,7 +910,7 @@ def health(agg, tier):
                       ('dep-depth>=2', 0.05), ('require_private', 0.25), ('lazy-flag', 0.15), ('mismatch-file', 0.025),
                       ('versionless-multi-candidate', 0.08), ('highest-version-in-two-directories', 0.1),
                       ('query-after-partial-load', 0.05), ('load', 0.2), ('tie', 0.02), ('q:deps', 0.15),
-                      ('q:deps-beyond-immediate', 0.01), ('prepend', 0.5)):
+                      ('q:deps-beyond-immediate', 0.006), ('prepend', 0.5)):
         if agg['labels'].get(lab, 0) < frac * ev:
             probs.append('%s in %d of %d histories' % (lab, agg['labels'].get(lab, 0), ev))
     if len(agg['nontrivial']) < 0.1 * ev:
